@@ -310,12 +310,22 @@ def run_config(cfg: dict, tid: int, max_levels: int = 400, want_residual: bool =
             obj.simulate(np.linspace(0, 1.0, 7) ** 2)
             obj.recovery_factor()
         obj.fluid = fp
+    # how the caller holds the two arrays: whole-number frac-face pressures as an integer array or a list of ints (a csv column),
+    # the time axis as a pandas Series (a column of the production table)
+    sched_arg, time_arg = sched, time
+    if sched is not None and cfg.get("sched_int"):
+        sched = np.round(sched)
+        sched_arg = sched.astype(np.int64) if cfg["sched_int"] == "array" else [int(v) for v in sched]
+    if cfg.get("time_box") == "series":
+        import pandas as pd  # noqa: PLC0415
+
+        time_arg = pd.Series(time)
     with SolverFlags() as flags, warnings.catch_warnings():
         warnings.simplefilter("ignore")
         if sched is None:
-            obj.simulate(time)
+            obj.simulate(time_arg)
         else:
-            obj.simulate(time, sched)
+            obj.simulate(time_arg, sched_arg)
     pf_series = None if kind == "ideal" else (np.full(len(time), cfg["pf"]) if sched is None else np.asarray(sched, dtype=float))
     events, raw = level_events(kind, fp, time, np.asarray(obj.pseudopressure, dtype=float), pf_series, tid, flags.bad,
                                max_levels, want_residual)
